@@ -319,6 +319,12 @@ func copyDBIntoSQLite(source, destination *sql.DB,
 		logger.Printf("err='%s'", err)
 		return err
 	}
+	// The cache must also forget signed records that were deleted from (or
+	// have expired in) the primary.
+	if _, err := tx.Exec("DELETE from expiring_signed_user_data"); err != nil {
+		logger.Printf("err='%s'", err)
+		return err
+	}
 	expiringUpsertText := saveSignedUserDataStmt[destinationType]
 	expiringUpsertStmt, err := tx.Prepare(expiringUpsertText)
 	if err != nil {
